@@ -95,22 +95,6 @@ theorem C07_at_most_once {s : St V} (h : Reachable s) :
   rw [List.Nodup, List.pairwise_map]
   exact this.imp (fun h => Nat.ne_of_lt h)
 
-/-- a burst of complete writes from a quiescent writer -/
-theorem Chan.burst_spec {s : St V} (h : Reachable s) (hw : s.wpc = .idle) (vs : List V) (hne : vs ≠ []) :
-    Reachable (vs.foldl writeOp s) ∧ (vs.foldl writeOp s).wpc = .idle ∧ (vs.foldl writeOp s).rpc = s.rpc
-    ∧ (vs.foldl writeOp s).dirty = true ∧ ∃ t, (vs.foldl writeOp s).lastPub = some (t, vs.getLast hne) := by
-  induction vs generalizing s with
-  | nil => exact absurd rfl hne
-  | cons v rest ih =>
-    obtain ⟨h1, w1, r1, d1, l1, _⟩ := writeOp_spec h hw v
-    cases rest with
-    | nil => exact ⟨h1, w1, r1, d1, _, l1⟩
-    | cons w rest' =>
-      obtain ⟨h2, w2, r2, d2, t, l2⟩ := ih h1 w1 (by simp)
-      simp only [List.foldl_cons] at h2 w2 r2 d2 l2 ⊢
-      refine ⟨h2, w2, by rw [r2, r1], d2, t, ?_⟩
-      simpa [List.getLast_cons] using l2
-
 /-- **last write wins.**  After a burst of writes between two reads, the next read returns the last
     value of the burst, and the read after that (no write in between) returns `None`: the earlier
     values of the burst are never delivered, the last is delivered once. -/
@@ -137,31 +121,6 @@ theorem C07_kinds_independent {κ : Type} [DecidableEq κ] (p p' : Chan.Prod κ 
     simp [hc] at hs
     obtain ⟨rfl, rfl⟩ := hs
     exact ⟨by simp, fun k' hk => by simp [hk]⟩
-
-/-- reading a list of distinct readers once each: what every channel looks like afterwards and
-    what every read returned -/
-theorem Chan.drain_spec {κ : Type} [DecidableEq κ] (ks : List κ) (hnd : ks.Nodup) (p : Chan.Prod κ V) :
-    (∀ k, (p.drain ks).1 k = if k ∈ ks then (readOp (p k)).1 else p k)
-    ∧ (p.drain ks).2 = ks.map (fun k => (k, (readOp (p k)).2)) := by
-  induction ks generalizing p with
-  | nil => simp [Prod.drain]
-  | cons k rest ih =>
-    have hnd' := List.nodup_cons.mp hnd
-    obtain ⟨h1, h2⟩ := ih hnd'.2 (p.readOp k).1
-    simp only [Prod.drain]
-    constructor
-    · intro k'
-      rw [h1 k']
-      by_cases hk : k' = k
-      · subst hk; simp [hnd'.1, Prod.readOp]
-      · by_cases hr : k' ∈ rest <;> simp [hk, hr, Prod.readOp]
-    · rw [h2]
-      simp only [List.map_cons, Prod.readOp]
-      congr 1
-      apply List.map_congr_left
-      intro k' hk'
-      have : k' ≠ k := by intro e; subst e; exact hnd'.1 hk'
-      simp [this]
 
 /-- **drained once per callback (semantics).**  If a component reads a list of distinct readers once
     each per `on_start_processing` (see `C07_drained_once_per_callback` for which components do),
